@@ -663,6 +663,13 @@ def gen_matrix_cases(start_id=0):
                      "vXAxis", "v-BToggle:left_once", "vUIState_m"]:
             for value in ["", "=\"str\"", "={a}", "={[a]}", "={[a, b]}", "={[a, ['m']]}", "={[a, b, ['m', 'n']]}", "={[a, 'lit', ['m']]}"]:
                 add("<%s %s%s title=\"t\">x</%s>" % (host, name, value, host), k); k += 1
+    # an attribute written twice: class / style / listeners are merged in source order
+    for key, vals in [("class", ['"x y"', "{fn()}", "{[g(), h(1)]}", "{{ a: b }}"]), ("style", ['"color: red"', "{fn()}", "{[s1, g()]}", "{{ color: c }}"]),
+                      ("onClick", ["{fn}", "{g()}", "{[fn, h]}", "{() => 1}"])]:
+        for v1 in vals:
+            for v2 in vals:
+                add("<div %s=%s id={foo.bar} %s=%s />" % (key, v1, key, v2), k); k += 1
+        add("<Comp %s=%s %s=%s %s=%s />" % (key, vals[1], key, vals[2], key, vals[0]), k); k += 1
     for host in ["div", "Comp"]:
         for name in ["v-html", "v-text", "vHtml", "v-html:arg_m"]:
             for value in ["=\"s\"", "={a}", "={[a]}", "={[a, b]}"]:
@@ -690,7 +697,8 @@ ATOM_TYPES = ["string", "number", "boolean", "object", "bigint", "symbol", "null
               "Exclude<string | number, number>", "Extract<string | number, number>", "Foo", "Imported", "NS.T", "keyof Foo", "typeof fn",
               "T0", "I0", "Arr0[number]", "Tup0[0]", "Tup0[number]", "Obj0['k']", "Obj0[string]", "Obj0['k' | 'j']", "Array<string>[number]",
               "Extract<string | string[], string | object>", "Extract<Date | number, object>", "Extract<number | Map<string, number>, object | number>",
-              "Exclude<string | string[], number>", "NonNullable<string[] | null>",
+              "Exclude<string | string[], number>", "NonNullable<string[] | null>", "null | NonNullable<string | undefined>",
+              "(Date | null) | NonNullable<number | null>",
               "I0['a']", "J1['a']", "J1['b']", "J1['zz']", "I0[number]", "J1['a' | 'b']"]
 OBJ = {"object", "array", "date", "map", "set", "weakmap", "promise", "regexp", "error"}
 # JavaScript value kinds a type can have; "ANY" = anything; None = outside the property's grammar
@@ -714,6 +722,7 @@ ATOM_KINDS = {
     "Extract<string | string[], string | object>": {"string", "array"}, "Extract<Date | number, object>": {"date"},
     "Extract<number | Map<string, number>, object | number>": {"number", "map"},
     "Exclude<string | string[], number>": {"string", "array"}, "NonNullable<string[] | null>": {"array"},
+    "null | NonNullable<string | undefined>": {"null", "string"}, "(Date | null) | NonNullable<number | null>": {"date", "null", "number"},
 }
 
 
@@ -813,7 +822,7 @@ class TGen(Gen):
     def enc(self, M, d):
         """a type expression denoting exactly the prop map M"""
         r = self.r
-        ops = ["lit"] if d <= 0 else ["lit", "alias", "iface", "extends", "extends_alias", "merge", "inter", "paren", "partial", "partial", "required", "required",
+        ops = ["lit"] if d <= 0 else ["lit", "alias", "iface", "extends", "extends_alias", "merge", "merge_extends", "inter", "paren", "partial", "partial", "required", "required",
                                       "pick", "pick", "omit", "omit", "index", "chain"]
         op = r.pick(ops)
         force = getattr(self, "force_op", None)
@@ -855,6 +864,14 @@ class TGen(Gen):
             self.decl("type %s = { %s };" % (b, self.members(m2)))
             self.decl("interface %s extends %s { %s }" % (a, b, self.members(m1)))
             return a
+        if op == "merge_extends":
+            m1, m2 = self.split(M)
+            m1a, m1b = self.split(m1)
+            nm, b = self.fresh("I"), self.fresh("I")
+            self.decl("interface %s { %s }" % (b, self.members(m2)))
+            self.decl("interface %s { %s }" % (nm, self.members(m1a)))
+            self.decl("interface %s extends %s { %s }" % (nm, b, self.members(m1b)))
+            return nm
         if op == "merge":
             m1, m2 = self.split(M)
             nm = self.fresh("I")
@@ -1033,12 +1050,16 @@ class TGen(Gen):
 
     def ts_module(self):
         r = self.r
-        prov = r.wpick([(10, "named"), (1, "aliased"), (1, "namespace"), (1, "local"), (1, "shadow"), (1, "other"), (1, "none")])
+        prov = r.wpick([(10, "named"), (1, "aliased"), (1, "namespace"), (1, "local"), (1, "shadow"), (1, "other"), (1, "none"),
+                        (1, "alias+other"), (1, "alias+local")])
         self.f("prov:" + prov)
         head = {"named": "import { defineComponent, SetupContext } from 'vue';", "aliased": "import { defineComponent as dc, SetupContext } from 'vue';",
                 "namespace": "import * as Vue from 'vue'; import { SetupContext } from 'vue';", "local": "function defineComponent(...a: any[]) { return a }",
                 "shadow": "import { defineComponent, SetupContext } from 'vue';", "other": "import { defineComponent } from './vue';",
-                "none": "import { h } from 'vue';"}[prov]
+                "none": "import { h } from 'vue';",
+                # Vue's defineComponent is imported under another name; the binding CALLED defineComponent is not Vue's
+                "alias+other": "import { defineComponent as defineVueComponent, SetupContext } from 'vue'; import { defineComponent } from './framework';",
+                "alias+local": "import { defineComponent as defineVueComponent, SetupContext } from 'vue'; function defineComponent(...a: any[]) { return a }"}[prov]
         callee = {"aliased": "dc", "namespace": "Vue.defineComponent"}.get(prov, "defineComponent")
         M = self.prop_map()
         pty = self.enc(M, 1 + r.below(3))
